@@ -238,7 +238,13 @@ func (s *gRPCWebStream) recv(msg proto.Message) error {
 		return nil
 	}
 
-	data := make([]byte, min(length, 1<<22)) // 4 MB is the max message size used by gRPC
+	// 4 MB is the max message size used by gRPC, bigger messages are rejected just like gRPC does it,
+	// since reading only a part of the message would corrupt both it and all of the following ones.
+	if length > 1<<22 {
+		return status.Errorf(codes.ResourceExhausted, "received message larger than max (%d vs. %d)", length, 1<<22)
+	}
+
+	data := make([]byte, length)
 
 	if _, err := io.ReadFull(s.r.Body, data); err != nil {
 		return status.Errorf(codes.Unavailable, "failed to read length-prefixed message body: %s", err)
